@@ -63,9 +63,9 @@ theorem parseMisc_wsg (hws : ∀ b ∈ ws, byteIsSpace T b = true) (fuel p : Nat
 
 theorem parseProlog_wsg (hws : ∀ b ∈ ws, byteIsSpace T b = true)
     (hbom : Stream.startsWith ⟨0, txt⟩ Lit.bom = false)
-    (hdecl : Stream.startsWith ⟨0, txt⟩ Lit.xmlDecl = false)
+    (hdecl : Stream.startsWithXmlDecl T ⟨0, txt⟩ = false)
     (hbom' : Stream.startsWith ⟨0, ws ++ txt⟩ Lit.bom = false)
-    (hdecl' : Stream.startsWith ⟨0, ws ++ txt⟩ Lit.xmlDecl = false) :
+    (hdecl' : Stream.startsWithXmlDecl T ⟨0, ws ++ txt⟩ = false) :
     SimT ws.length (sh ws.length) (parseProlog T txt) (parseProlog T (ws ++ txt)) := by
   unfold parseProlog
   simp only [Stream.new, hbom, hdecl, hbom', hdecl', Bool.false_eq_true, ↓reduceIte, TM.lift_ok_bind]
@@ -82,9 +82,9 @@ theorem parseProlog_wsg (hws : ∀ b ∈ ws, byteIsSpace T b = true)
 
 theorem parseCtx_wsg (hws : ∀ b ∈ ws, byteIsSpace T b = true)
     (hbom : Stream.startsWith ⟨0, txt⟩ Lit.bom = false)
-    (hdecl : Stream.startsWith ⟨0, txt⟩ Lit.xmlDecl = false)
+    (hdecl : Stream.startsWithXmlDecl T ⟨0, txt⟩ = false)
     (hbom' : Stream.startsWith ⟨0, ws ++ txt⟩ Lit.bom = false)
-    (hdecl' : Stream.startsWith ⟨0, ws ++ txt⟩ Lit.xmlDecl = false) (opt : Opt) (d : Nat) :
+    (hdecl' : Stream.startsWithXmlDecl T ⟨0, ws ++ txt⟩ = false) (opt : Opt) (d : Nat) :
     Sim (NZ opt.positions) (shC ws.length) (parseCtx T txt d opt) (parseCtx T (ws ++ txt) d opt) := by
   unfold parseCtx
   refine Sim.bind (initCtx_sh ws.length txt _ (by simp; omega) opt) (fun c0 _ h0 => ?_)
@@ -117,7 +117,7 @@ private theorem parse_rep (T : Tables) (c : UInt8) (hc : byteIsSpace T c = true)
     (hc2 : c ≠ 60) (txt : Bytes) (opt : Opt) (k : Nat) (g : TextPos → TextPos)
     (H : PosSh g k txt (List.replicate k c ++ txt))
     (hbom : Stream.startsWith ⟨0, txt⟩ Lit.bom = false)
-    (hdecl : Stream.startsWith ⟨0, txt⟩ Lit.xmlDecl = false) :
+    (hdecl : Stream.startsWithXmlDecl T ⟨0, txt⟩ = false) :
     EOkTo g (shiftDoc k opt.positions) (parse T txt opt) (parse T (List.replicate k c ++ txt) opt) := by
   have hbom' : Stream.startsWith ⟨0, List.replicate k c ++ txt⟩ Lit.bom = false := by
     cases k with
@@ -125,11 +125,12 @@ private theorem parse_rep (T : Tables) (c : UInt8) (hc : byteIsSpace T c = true)
     | succ k =>
       simp [Stream.startsWith, Lit.bom, List.replicate_succ, List.isPrefixOf]
       intro h; exact absurd h.symm hc1
-  have hdecl' : Stream.startsWith ⟨0, List.replicate k c ++ txt⟩ Lit.xmlDecl = false := by
+  have hdecl' : Stream.startsWithXmlDecl T ⟨0, List.replicate k c ++ txt⟩ = false := by
     cases k with
     | zero => simpa using hdecl
     | succ k =>
-      simp [Stream.startsWith, Lit.xmlDecl, List.replicate_succ, List.isPrefixOf]
+      simp [Stream.startsWithXmlDecl, Stream.startsWith, Lit.xmlDeclOpen, List.replicate_succ,
+        List.isPrefixOf]
       intro h; exact absurd h.symm hc2
   have hws : ∀ b ∈ List.replicate k c, byteIsSpace T b = true := by
     intro b hb
@@ -144,7 +145,7 @@ private theorem parse_rep (T : Tables) (c : UInt8) (hc : byteIsSpace T c = true)
 /-- `parse_shift_err` for every input whose first byte, if any, starts a character -/
 theorem parse_shift_err_head (T : Tables) (hsp : byteIsSpace T 32 = true) (txt : Bytes) (opt : Opt)
     (e : Err) (k : Nat) (hh : HeadOk txt) (hbom : Stream.startsWith ⟨0, txt⟩ Lit.bom = false)
-    (hdecl : Stream.startsWith ⟨0, txt⟩ Lit.xmlDecl = false)
+    (hdecl : Stream.startsWithXmlDecl T ⟨0, txt⟩ = false)
     (h : parse T txt opt = .err e) :
     parse T (List.replicate k 32 ++ txt) opt = .err (e.mapPos (shPosSp k)) :=
   (parse_rep T 32 hsp (by decide) (by decide) txt opt k _ (posSh_sp k txt hh) hbom hdecl).2 e h
@@ -152,7 +153,7 @@ theorem parse_shift_err_head (T : Tables) (hsp : byteIsSpace T 32 = true) (txt :
 /-- `parse_shift_err_nl` for every input whose first byte, if any, starts a character -/
 theorem parse_shift_err_nl_head (T : Tables) (hnl : byteIsSpace T 10 = true) (txt : Bytes) (opt : Opt)
     (e : Err) (k : Nat) (hh : HeadOk txt) (hbom : Stream.startsWith ⟨0, txt⟩ Lit.bom = false)
-    (hdecl : Stream.startsWith ⟨0, txt⟩ Lit.xmlDecl = false)
+    (hdecl : Stream.startsWithXmlDecl T ⟨0, txt⟩ = false)
     (h : parse T txt opt = .err e) :
     parse T (List.replicate k 10 ++ txt) opt = .err (e.mapPos (shPosNl k)) :=
   (parse_rep T 10 hnl (by decide) (by decide) txt opt k _ (posSh_nl k txt hh) hbom hdecl).2 e h
@@ -168,7 +169,7 @@ front the same error is returned — same kind, same payload — and its positio
 further right if it was on the first line, unchanged otherwise. -/
 theorem parse_shift_err (T : Tables) (hsp : byteIsSpace T 32 = true) (txt : Bytes) (hv : ValidUtf8 txt)
     (opt : Opt) (e : Err) (k : Nat) (hbom : Stream.startsWith ⟨0, txt⟩ Lit.bom = false)
-    (hdecl : Stream.startsWith ⟨0, txt⟩ Lit.xmlDecl = false)
+    (hdecl : Stream.startsWithXmlDecl T ⟨0, txt⟩ = false)
     (h : parse T txt opt = .err e) :
     parse T (List.replicate k 32 ++ txt) opt = .err (e.mapPos (shPosSp k)) :=
   parse_shift_err_head T hsp txt opt e k (headOk_of_valid txt hv) hbom hdecl h
@@ -178,7 +179,7 @@ returned with its row increased by `k`. -/
 theorem parse_shift_err_nl (T : Tables) (hnl : byteIsSpace T 10 = true) (txt : Bytes)
     (hv : ValidUtf8 txt) (opt : Opt)
     (e : Err) (k : Nat) (hbom : Stream.startsWith ⟨0, txt⟩ Lit.bom = false)
-    (hdecl : Stream.startsWith ⟨0, txt⟩ Lit.xmlDecl = false)
+    (hdecl : Stream.startsWithXmlDecl T ⟨0, txt⟩ = false)
     (h : parse T txt opt = .err e) :
     parse T (List.replicate k 10 ++ txt) opt = .err (e.mapPos (shPosNl k)) :=
   parse_shift_err_nl_head T hnl txt opt e k (headOk_of_valid txt hv) hbom hdecl h
@@ -186,17 +187,18 @@ theorem parse_shift_err_nl (T : Tables) (hnl : byteIsSpace T 10 = true) (txt : B
 /-- **Shift equivariance of accepted documents, line breaks**. -/
 theorem parse_shift_nl (T : Tables) (hnl : byteIsSpace T 10 = true) (txt : Bytes) (opt : Opt) (d : Doc)
     (k : Nat) (hbom : Stream.startsWith ⟨0, txt⟩ Lit.bom = false)
-    (hdecl : Stream.startsWith ⟨0, txt⟩ Lit.xmlDecl = false)
+    (hdecl : Stream.startsWithXmlDecl T ⟨0, txt⟩ = false)
     (h : parse T txt opt = .ok d) :
     parse T (List.replicate k 10 ++ txt) opt = .ok (shiftDoc k opt.positions d) := by
   have hbom' : Stream.startsWith ⟨0, List.replicate k 10 ++ txt⟩ Lit.bom = false := by
     cases k with
     | zero => simpa using hbom
     | succ k => simp [Stream.startsWith, Lit.bom, List.replicate_succ, List.isPrefixOf]
-  have hdecl' : Stream.startsWith ⟨0, List.replicate k 10 ++ txt⟩ Lit.xmlDecl = false := by
+  have hdecl' : Stream.startsWithXmlDecl T ⟨0, List.replicate k 10 ++ txt⟩ = false := by
     cases k with
     | zero => simpa using hdecl
-    | succ k => simp [Stream.startsWith, Lit.xmlDecl, List.replicate_succ, List.isPrefixOf]
+    | succ k => simp [Stream.startsWithXmlDecl, Stream.startsWith, Lit.xmlDeclOpen, List.replicate_succ,
+        List.isPrefixOf]
   have hws : ∀ b ∈ List.replicate k (10 : UInt8), byteIsSpace T b = true := by
     intro b hb
     rw [List.eq_of_mem_replicate hb]; exact hnl
